@@ -424,8 +424,13 @@ class EnergyFluxProfile(
 
         integral = np.empty((len(E1),), dtype=np.float64)
 
+        def func(E):
+            # The call operator returns a (1,)-shaped ndarray, quad requires a
+            # scalar.
+            return np.atleast_1d(self(E))[0]
+
         for (i, (E1_i, E2_i)) in enumerate(zip(E1, E2)):
-            integral[i] = quad(self, E1_i, E2_i, full_output=True)[0]
+            integral[i] = quad(func, E1_i, E2_i, full_output=True)[0]
 
         return integral
 
